@@ -106,6 +106,18 @@ class _Canonical(ast.NodeTransformer):
         return node
 
 
+def _sole_name(stmt):
+    '''Name n when the statement is `return n`, `if n: ...` or
+    `for ... in n: ...` (the temporary is the whole header expression).'''
+    if isinstance(stmt, ast.Return) and isinstance(stmt.value, ast.Name):
+        return stmt.value.id
+    if isinstance(stmt, ast.If) and isinstance(stmt.test, ast.Name):
+        return stmt.test.id
+    if isinstance(stmt, ast.For) and isinstance(stmt.iter, ast.Name):
+        return stmt.iter.id
+    return None
+
+
 def _inline_returned_temporaries(tree):
     '''x = E ; return x  ->  return E   when x is a local name that is read
     nowhere else in the function (part of the canonical normal form: a
@@ -130,10 +142,9 @@ def _inline_returned_temporaries(tree):
                 nxt = body[idx + 1] if idx + 1 < len(body) else None
                 if isinstance(stmt, ast.Assign) and len(stmt.targets) == 1 \
                         and isinstance(stmt.targets[0], ast.Name) and \
-                        isinstance(nxt, ast.Return) and isinstance(
-                            nxt.value, ast.Name) and \
-                        nxt.value.id == stmt.targets[0].id:
-                    pairs[nxt.value.id] = pairs.get(nxt.value.id, 0) + 1
+                        _sole_name(nxt) == stmt.targets[0].id:
+                    name = stmt.targets[0].id
+                    pairs[name] = pairs.get(name, 0) + 1
                 for fld in ('body', 'orelse', 'finalbody'):
                     sub = getattr(stmt, fld, None)
                     if isinstance(sub, list) and sub and isinstance(
@@ -151,18 +162,22 @@ def _inline_returned_temporaries(tree):
             while idx < len(body):
                 stmt = body[idx]
                 nxt = body[idx + 1] if idx + 1 < len(body) else None
-                if isinstance(stmt, ast.Assign) and len(stmt.targets) == 1 \
-                        and isinstance(stmt.targets[0], ast.Name) and \
-                        isinstance(nxt, ast.Return) and isinstance(
-                            nxt.value, ast.Name) and \
-                        nxt.value.id == stmt.targets[0].id and \
-                        loads.get(nxt.value.id, 0) == \
-                        stores.get(nxt.value.id, 0) == \
-                        pairs.get(nxt.value.id, -1) and \
-                        nxt.value.id not in params:
-                    out.append(ast.copy_location(
-                        ast.Return(value=stmt.value), stmt))
-                    idx += 2
+                name = stmt.targets[0].id if isinstance(
+                    stmt, ast.Assign) and len(stmt.targets) == 1 and \
+                    isinstance(stmt.targets[0], ast.Name) else None
+                if name is not None and _sole_name(nxt) == name and \
+                        loads.get(name, 0) == stores.get(name, 0) == \
+                        pairs.get(name, -1) and name not in params:
+                    if isinstance(nxt, ast.Return):
+                        out.append(ast.copy_location(
+                            ast.Return(value=stmt.value), stmt))
+                        idx += 2
+                        continue
+                    if isinstance(nxt, ast.If):
+                        nxt.test = stmt.value
+                    elif isinstance(nxt, ast.For):
+                        nxt.iter = stmt.value
+                    body = body[:idx] + body[idx + 1:]
                     continue
                 for fld in ('body', 'orelse', 'finalbody'):
                     sub = getattr(stmt, fld, None)
